@@ -58,6 +58,7 @@ const (
 	kPattern
 	kCLI
 	kLongLexeme
+	kManySymbols
 )
 
 func (e Engine) Plan(tier string, seed uint64) []simrt.Case {
@@ -87,6 +88,13 @@ func (e Engine) Plan(tier string, seed uint64) []simrt.Case {
 	}
 	for i := 0; i < nLong; i++ {
 		add(simrt.Mix(seed, 14, 4, uint64(i)), "long-lexeme", kLongLexeme)
+	}
+	nMany := 16
+	if tier == "thorough" {
+		nMany = 160
+	}
+	for i := 0; i < nMany; i++ {
+		add(simrt.Mix(seed, 14, 5, uint64(i)), "many-symbols", kManySymbols)
 	}
 	return cs
 }
@@ -496,10 +504,75 @@ func (e Engine) Run(t *simrt.Tape, c simrt.Case, x *simrt.Ctx) *simrt.Result {
 			}
 		}
 
+	case kManySymbols:
+		// specifications with many distinct terminals, non-terminals and productions: the symbol
+		// tables grow through several resizes (sizes in the fixtures never reach the first one)
+		for i := 0; i < 12; i++ {
+			n := 40 + t.Draw(260)
+			style := t.Draw(4)
+			salt := t.Draw(100000)
+			var sb strings.Builder
+			sb.WriteString("grammar many;\n")
+			name := func(k int) string {
+				switch style {
+				case 0:
+					return fmt.Sprintf("r%d", k+salt%1000)
+				case 1:
+					return fmt.Sprintf("x%d_", k*7+salt%100)
+				case 2:
+					return fmt.Sprintf("n%dt%d", salt%97, k)
+				}
+				return fmt.Sprintf("%c%c%d", 'a'+k%26, 'a'+(k/26)%26, salt%10)
+			}
+			nTok := t.Draw(n / 2)
+			for k := 0; k < nTok; k++ {
+				fmt.Fprintf(&sb, "T%d=\"t%d\";", k, k+salt%50)
+				if k%8 == 7 {
+					sb.WriteString("\n")
+				}
+			}
+			sb.WriteString("start=" + name(0) + ";\n")
+			for k := 0; k < n; k++ {
+				// compact layout: the point is the number of symbols per text, not the spacing
+				fmt.Fprintf(&sb, "%s=\"l%d\"%s", name(k), k+salt%50, name((k+1)%n))
+				if nTok > 0 && k%2 == 0 {
+					fmt.Fprintf(&sb, "|T%d", k%nTok)
+				}
+				if k%5 == 0 {
+					fmt.Fprintf(&sb, "|(\"g%d\"%s)", k, name((k*5+1)%n))
+				}
+				sb.WriteString(";")
+				if k%4 == 3 {
+					sb.WriteString("\n")
+				}
+			}
+			sb.WriteString("\n")
+			text := []byte(sb.String())
+			if len(text) > 3900 {
+				// keep clear of the reader's buffer boundary: this workload is about table sizes
+				// (a multi-buffer text would mostly exercise the dependency's known double reload)
+				text = compactBelow(text, 3900)
+			}
+			cr := callEntry(0, text, simrt.FullPlan())
+			res.Evals++
+			res.Key("many_symbols", style, n/40, outcomeClass(cr))
+			if cls, msg := judge(cr, len(text), B); cls != "" {
+				if id := knownFinding(x, cls); id != "" {
+					res.Known[id]++
+					continue
+				}
+				res.Violation = &simrt.Violation{Class: cls + "[many_symbols]", Message: fmt.Sprintf("specification with %d rules and %d tokens (name style %d): %s", n, nTok, style, msg), Detail: map[string]any{"text_head": string(text[:min(len(text), 300)])}}
+				return res
+			}
+		}
+
 	case kPattern:
 		n := 40
 		for i := 0; i < n; i++ {
 			p, shape := gen.GenPattern(t)
+			if os.Getenv("VERIF_DEBUG") != "" {
+				fmt.Fprintf(os.Stderr, "PATTERN %q (%s)\n", p, shape)
+			}
 			for which, name := range []string{"nfa.Parse", "regex/ast.Parse+ToDFA"} {
 				var gotNil bool
 				var err error
@@ -703,6 +776,15 @@ func (e Engine) runCLI(res *simrt.Result, x *simrt.Ctx, dir, class string, args 
 		}
 	}
 	return false
+}
+
+// compactBelow cuts a line-structured specification after the last complete line below limit bytes.
+func compactBelow(text []byte, limit int) []byte {
+	if len(text) <= limit {
+		return text
+	}
+	cut := bytes.LastIndexByte(text[:limit], '\n')
+	return text[:cut+1]
 }
 
 func clip(s string) string {
